@@ -297,6 +297,71 @@ def connect_case(ctx, entries, mask, behaviour, cut, case, fail_kind=0):
     return total
 
 
+def synchronous_loss(ctx):
+    """A hand-made or in-process transport may report the loss of the connection from inside write() (EPIPE at once, a
+    loop-back peer that hangs up while it is being written to): the call that was being written - the Hello call of a
+    connection attempt included - is outstanding and fails once with that loss; no timer survives."""
+    clock = clientfix.install_clock()
+    for variant in range(6):
+        timeout = (None, 4.0)[variant % 2]
+        stage = ('call', 'call', 'hello')[variant // 2]
+        peer = clientfix.Peer(unix=bool(variant % 3 == 0))
+        loss = Failure(ConnectionLost('lost inside write'))
+        fired = {'n': 0}
+
+        def on_event(k_, payload, peer=peer, loss=loss, fired=fired, stage=stage):
+            if k_ != 'write' or fired['n']:
+                return
+            want = b'Hello' if stage == 'hello' else b'Doomed'
+            if want in payload:
+                fired['n'] += 1
+                peer.lose(loss)
+        case = {'kind': 'sync-loss', 'variant': variant}
+        w = {'stage': stage, 'timeout': timeout}
+        ctx.count('evaluations')
+        ctx.count('synchronous_loss_cases')
+        peer.connect()
+        if stage == 'hello':
+            peer.ep.t.on_event = on_event
+            peer.authenticate()
+            res = peer.connect_results
+            if len(res) != 1 or res[0][0] != 'err':
+                ctx.report('sync-loss', 'the transport closed while the Hello call was being written: connect Deferred fired '
+                           '%d times (%r)' % (len(res), [(k, repr(v)[:80]) for k, v in res]), w, case)
+                return
+        else:
+            peer.authenticate()
+            peer.hello()
+            peer.ep.t.on_event = on_event
+            kw = {'timeout': timeout} if timeout else {}
+            try:
+                out = clientfix.Outcome(peer.proto.callRemote('/obj', 'Doomed', interface='org.verif.I',
+                                                              destination='org.verif.P', **kw))
+            except Exception as e:
+                ctx.report('sync-loss', 'callRemote raised %r when the transport closed during the write' % e, w, case)
+                return
+            if out.fired != 1 or out.results[0][0] != 'err' or out.results[0][1].value is not loss.value:
+                w['results'] = [(k, repr(v)[:80]) for k, v in out.results]
+                ctx.report('sync-loss', 'the transport closed while a call was being written: the call completed %d times '
+                           '(%r), expected once with the loss reason' % (out.fired, w['results']), w, case)
+                return
+        try:
+            clock.advance(1000)
+        except Exception as e:
+            ctx.report('timer-callback-raised', 'a timer raised %r after a loss inside write()' % e, w, case)
+            return
+        live = [dc for dc in clock.getDelayedCalls() if dc.active()]
+        if live or (stage != 'hello' and peer.proto._pendingCalls):
+            ctx.report('sync-loss', 'after a loss inside write(): %d timers live, %d pending entries' % (
+                len(live), len(peer.proto._pendingCalls)), w, case)
+            for dc in live:
+                dc.cancel()
+            return
+        if peer.ep.crashes:
+            ctx.report('connectionLost-raised', 'loss inside write(): %r' % peer.ep.crashes[0], w, case)
+            return
+
+
 def classify_connect(results, w):
     return None
 
@@ -442,6 +507,7 @@ def established_case(ctx, scenario_idx, lose_at, partial, case):
         proxies = {}          # idx -> {'d': Outcome, 'obj': proxy or None, 'cb': Counter}
         pending_introspect = []
         reentrant = []
+        proxy_reentry = []
         retried = []
         cancelled = []
         loss = Failure(ConnectionLost('verif established loss'))
@@ -478,6 +544,16 @@ def established_case(ctx, scenario_idx, lose_at, partial, case):
                     cancelled.append(('proxy (bound method)', l_.counter))
                 else:
                     obj.notifyOnDisconnect(rec['cb'])
+                if scenario_idx % 3 == 2 and idx % 2 == 0:
+                    # a proxy-level listener that says goodbye through the dying connection: what it starts is outstanding
+                    # on a dead connection and must be failed by the same loss, like everything else
+                    def proxy_goodbye(o_, reason_):
+                        for t_ in (None, 3.5):
+                            kw_ = {'timeout': t_} if t_ else {}
+                            reentrant.append(clientfix.Outcome(conn.callRemote(
+                                '/obj', 'ProxyGoodbye', interface='org.verif.I', destination='org.verif.P', **kw_)))
+                        proxy_reentry.append(idx)
+                    obj.notifyOnDisconnect(proxy_goodbye)
                 return obj
             d.addCallback(got)
             rec['d'].attach(d)
@@ -673,8 +749,10 @@ def established_case(ctx, scenario_idx, lose_at, partial, case):
             if o.fired != 1 or o.results[0][0] != 'err' or not (o.results[0][1] is loss or o.results[0][1].value is loss.value):
                 w['reentrant'] = [[(k_, repr(v_.value if k_ == 'err' else v_)[:80]) for k_, v_ in x.results] for x in reentrant]
                 w['retried_calls'] = retried
-                ctx.report('reentrant-call', 'a call issued %s was not finished off by the loss (fired %d times: %r)' % (
+                ctx.report('reentrant-call-from-proxy-callback' if proxy_reentry and not retried else 'reentrant-call',
+                           'a call issued %s was not finished off by the loss (fired %d times: %r)' % (
                     'by the failure handler of another call while the lost connection was failing its calls' if retried
+                    else 'by a proxy-level disconnect callback' if proxy_reentry
                     else 'by a connection-level disconnect callback', o.fired, w['reentrant']), w, case)
                 break
         else:
@@ -776,6 +854,8 @@ def run(ctx):
     part_a(ctx, si, sn, quick)
     ctx.exhaustive = not ctx.truncated
     part_b(ctx, si, sn, quick)
+    if si == 0:
+        synchronous_loss(ctx)
     ctx.sample({'address': ENTRIES[0][0] + ';' + ENTRIES[2][0], 'mask': [False, True], 'behaviour': 'second-mechanism',
                 'cut': 37})
     ctx.sample({'established_steps': [[k, a] for k, a in traffic_steps(None, 3)], 'lose_at': 4, 'partial': 17})
